@@ -44,7 +44,7 @@ Definition in_window (l : lim) (ts : Z) : bool :=
 Definition can_trigger (l : lim) (s : stats) (ts : Z) : bool :=
   if negb (fc l =? -1) && (fc l <=? cnt s) then false
   else if negb (in_window l ts) then false
-  else if negb (lastf s =? 0) && (ts - lastf s <? fp l * 1000000) then false
+  else if negb (lastf s =? 0) && ((0 <? fp l * 1000000) && (ts - lastf s <? fp l * 1000000)) then false
   else true.
 
 (* one hit, sequentially: limits, then the condition, then the atomic re-check-and-record,
